@@ -24,12 +24,14 @@ DRIVER = 'Drivers/C18.lean'
 DRIVER_MODULES = ['StarsimModel.Model.MultiRun', 'StarsimModel.Model.Proto']
 RULE = ('scenarios = (member configurations from harness/impl.gen_sim_config without global-generator readers, <=200 agents, <=10 steps; '
         'single sim x n_runs or list of sims; api multi_run/MultiSim/parallel; mode parallel/serial/debug; n_cpus 1,2,4 (thorough: 16); '
-        'reseed None/True/False; iterpars rand_seed / n_agents; inplace on/off); distinct = distinct canonical scenario; '
+        'reseed None/True/False; iterpars rand_seed / n_agents; inplace on/off; population created by the sim or supplied by the caller (own_people); '
+        'state of the process-global generators of the calling process (host)); fixed families every run incl. caller-supplied People + ss.Births in lists/replicates, serial / one worker / in place; '
+        'summaries: msim.summary after mean()/median(), summarize(method, how) under a history of how values; distinct = distinct canonical scenario; '
         'non-trivial = at least two members and at least one standalone comparison')
 TRUSTED = ['multiprocess.Pool.map: results are returned in task order; default chunk size ceil(n/(4*workers)); the tasks of one chunk are pickled together (validated: the driver is given the chunk size computed by this formula and must predict the observed outcome)',
            'sciris.parallelize: ncpus = min(n_cpus or cpu_count, n_jobs); default parallelizer multiprocess (fork)',
            'NumPy: np.mean / np.std(ddof=0) / np.quantile(method=linear) compute the statistics the model defines, up to the stated floating-point tolerance']
-ASSUMPTIONS = ['the simulation itself is a function of (configuration, seed): configurations that read the process-global NumPy generator are excluded (C01 findings) and a mismatch is re-checked against a perturbed global generator before it is reported',
+ASSUMPTIONS = ['the simulation itself is a function of (configuration, seed, state of the process-global generators when stepping starts): Model GEnv.simG; that Sim.init resets those generators from the seed first is a regenerated fact (initSeedsGlobalFirst) and the frame theorems C18_host_state_frame* follow; every real multi-run is started from a random state of the process-global generators (scenario `host`), the standalone references from another; a mismatch is classified (host-state dependent = failure; differs even from an identical host state = C01/C14, skipped and counted)',
                'OS scheduling is abstracted as an arbitrary list of atomic member runs over workers; the observed schedule of every real parallel run is fed to the model',
                'floating point: reduced arrays are compared with the exact rational statistics within 1e-12*max(1,|row|max) (mean, quantiles) and 1e-9 relative (std bounds)']
 
@@ -49,18 +51,41 @@ def quiet():
 
 
 def build(cfg, seed):
+    """ the real sim of a configuration.  `own_people`: the caller supplies the population (`ss.Sim(people=ss.People(n))`)
+        instead of letting Sim.init create it: another path through Sim.init / init_people """
     from harness.props.c18_probe import Stamp
-    return impl.build_sim(cfg, extra_analyzers=[Stamp()], rand_seed=int(seed))
+    over = dict(rand_seed=int(seed))
+    if cfg.get('own_people'):
+        import starsim as ss
+        over['people'] = ss.People(int(cfg['n_agents']))
+    return impl.build_sim(cfg, extra_analyzers=[Stamp()], **over)
+
+
+HOST_STANDALONE = 424242      # state of the process-global generators under which the standalone references are run
+HOST_OTHER = 987654
+
+
+def set_host_state(x):
+    """ Put the process-global generators (NumPy legacy, Numba, Python `random`) of THIS process into a known state `x`.
+        Forked pool workers inherit it; a serial loop and a one-worker pool hand each member what the previous one left.
+        The property quantifies over worker counts and schedules, i.e. over whatever state the hosting process is in. """
+    import random
+    import starsim as ss
+    if x is None: return
+    ss.set_seed(int(x) % (2 ** 31))          # NumPy + Numba
+    random.seed(int(x))
+    np.random.random(int(x) % 7 + 1)
 
 
 _STANDALONE = {}
 
 
-def standalone(cfg, seed, fresh=False):
+def standalone(cfg, seed, fresh=False, host=HOST_STANDALONE):
     """ flat results of the configuration run alone, in this process, with this seed (cached) """
     key = (json.dumps(cfg, sort_keys=True), int(seed))
     if fresh or key not in _STANDALONE:
         with quiet():
+            set_host_state(host)
             sim = build(cfg, seed)
             sim.run()
         res = impl.flat_results(sim)
@@ -83,20 +108,47 @@ def _hash_run(args):
     return _digest(standalone(cfg, seed, fresh=True))
 
 
-def reproducible(cfg, seed):
-    """ Is the standalone run a function of (configuration, seed) at all?  Re-run after perturbing the process-global
-        NumPy generator, and in 8 forked child processes (plain multiprocessing, not the code under test).  If not,
-        the mismatch is C01's / C14's business (global-generator readers; reads of uninitialised storage of removed
-        agents), not C18's: the caller skips and counts the case. """
+def classify(cfg, seed):
+    """ Why can a member differ from its standalone run?
+        'ok'     : the standalone run is a function of (configuration, seed): the mismatch is a genuine C18 failure.
+        'host'   : the standalone run depends on the state the process-global generators of the hosting process are in
+                   when the run starts (same state -> same results, other state -> other results): `Sim.init` did not
+                   reset them before the first read.  Then a member's results depend on which worker runs it and on what
+                   ran there before — worker count, scheduling, serial vs parallel: a C18 failure (the frame theorem
+                   C18_host_state_frame rests on exactly this reset).
+        'nondet' : it differs even from an identical host state (8 forked children, plain multiprocessing): reads of
+                   uninitialised storage etc. — C01's / C14's subject; the caller skips and counts the case. """
+    key = (json.dumps(cfg, sort_keys=True), int(seed))
+    if key not in _CLASS:
+        _CLASS[key] = _classify(cfg, seed)
+    return _CLASS[key]
+
+
+_CLASS = {}
+
+
+def _classify(cfg, seed):
     a = standalone(cfg, seed)
-    np.random.seed(987654); np.random.random(11)
-    b = standalone(cfg, seed, fresh=True)
-    if not impl.arrays_equal(a, b)[0]:
-        return False
+    a2 = standalone(cfg, seed, fresh=True)
+    if not impl.arrays_equal(a, a2)[0]:
+        return 'nondet'
     import multiprocessing as mp
     with mp.get_context('fork').Pool(4) as pool:
         hs = pool.map(_hash_run, [(cfg, seed)] * 8, chunksize=1)
-    return set(hs) == {_digest(a)}
+    if set(hs) != {_digest(a)}:
+        return 'nondet'
+    b = standalone(cfg, seed, fresh=True, host=HOST_OTHER)
+    if not impl.arrays_equal(a, b)[0]:
+        return 'host'
+    return 'ok'
+
+
+def reproducible(cfg, seed):
+    return classify(cfg, seed) == 'ok'
+
+
+HOST_MSG = ('the run alone is itself not a function of (configuration, seed): it continues the process-global generator of the hosting '
+            'process (same host state -> same results, another host state -> other results), so the member depends on worker count / scheduling / serial vs parallel')
 
 
 def observe_sim(s):
@@ -184,6 +236,7 @@ def run_impl(sc):
         if not sc.get('do_run', True): kw['do_run'] = False
         target = members[0] if sc['target'] == 'single' else members
         out = dict(error=None, message=None)
+        set_host_state(sc.get('host'))
         try:
             if sc['api'] == 'multi_run':
                 sims = ss.multi_run(target, n_runs=sc['n_runs'], **kw)
@@ -278,9 +331,11 @@ def compare_sim(sc, obs, pred, where):
     ref = standalone(cfg, pred['eff'])
     same, why = impl.arrays_equal(obs['flat'], ref)
     if not same:
-        if not reproducible(cfg, pred['eff']):
+        cl = classify(cfg, pred['eff'])
+        if cl == 'nondet':
             return 'SKIP-global-reader'
-        return f"{where}: results differ from the standalone run of cfg {pred['cfg']} with seed {pred['eff']}: {why}"
+        return (f"{where}: results differ from the standalone run of cfg {pred['cfg']} with seed {pred['eff']}: {why}"
+                + (f' ({HOST_MSG})' if cl == 'host' else ''))
     return None
 
 
@@ -309,7 +364,13 @@ def compare_outcome(sc, out, model):
 # ---------------------------------------------------------------------------
 # scenario generator
 
-def small_cfg(rng, births=False):
+def small_cfg(rng, births=False, own_people=False):
+    cfg = _small_cfg(rng, births)
+    if own_people: cfg['own_people'] = True
+    return cfg
+
+
+def _small_cfg(rng, births=False):
     if births:   # ss.Births draws from the process-global generator, which Sim.init seeds: init and run must stay together
         cfg = impl.gen_sim_config(rng, small=True, allow_global_readers=True, demographics=['births', 'deaths'])
     else:
@@ -329,7 +390,7 @@ N_CPUS = [1, 2, 4, None, 8, 0.5, 32]
 
 def gen_scenario(rng, thorough=False, force=None):
     force = force or {}
-    cfgs = [small_cfg(rng, births=force.get('births', False))]
+    cfgs = [small_cfg(rng, births=force.get('births', False), own_people=force.get('own_people', False))]
     target = force.get('target') or rng.choice(['single', 'single', 'list', 'list'])
     mode = force.get('mode') or rng.choice(['parallel', 'parallel', 'parallel', 'serial'])
     cpus = N_CPUS + ([16] if thorough else [])
@@ -357,7 +418,7 @@ def gen_scenario(rng, thorough=False, force=None):
         same = rng.random() < 0.5
         if not same:
             for _ in range(min(k - 1, 2)):
-                cfgs.append(small_cfg(rng))
+                cfgs.append(small_cfg(rng, births=force.get('births', False), own_people=force.get('own_people', False)))
         sc['members'] = [dict(cfg=(0 if same else rng.randrange(len(cfgs))), seed=rng.randint(0, 10000)) for _ in range(k)]
         if 2 <= k <= 4 and rng.random() < 0.12:     # the same object twice in the list
             j = rng.randrange(1, k); a = rng.randrange(0, j)
@@ -366,7 +427,14 @@ def gen_scenario(rng, thorough=False, force=None):
     if same and rng.random() < 0.15:
         v = rng.choice([50, 80, 110])
         sc['sim_args'] = dict(n_agents=v, cfg_id=with_n_agents(cfgs, 0, v), seed=None, as_kwargs=rng.random() < 0.5)
-    sc.update({k: v for k, v in force.items() if k not in ('target', 'mode', 'min_members', 'births', 'sizes')})
+    sc.update({k: v for k, v in force.items() if k not in ('target', 'mode', 'min_members', 'births', 'sizes', 'own_people')})
+    # the state of the process-global generators the hosting process is in when the multi-run starts
+    sc['host'] = rng.randint(1, 2 ** 31 - 2)
+    # caller-supplied population (not together with n_agents overrides: the supplied People object fixes the size)
+    ipn = ip_norm(sc.get('iterpars'))
+    if 'own_people' not in force and not (ipn and ipn.get('n_agents') is not None) and not sc.get('sim_args') and rng.random() < 0.3:
+        for c in cfgs:
+            if rng.random() < 0.7: c['own_people'] = True
     if force.get('sizes'):      # members of different sizes (same configuration otherwise)
         sc['members'] = [dict(cfg=with_n_agents(cfgs, 0, v), seed=rng.randint(0, 10000)) for v in force['sizes']]
     # keep clear of the chunk-sharing finding in the random stream (it has its own probes): n <= 4*workers
@@ -381,6 +449,16 @@ def fixed_families(rng, thorough=False):
     G = lambda **f: gen_scenario(rng, thorough, dict(dict(iterpars=None, sim_args=None, reseed=None, shrink=None), **f))
     sizes = rng.choice([[90, 150, 60, 120], [120, 60, 150, 90], [60, 150, 90], [150, 90, 120, 60, 100]])
     fam = [
+        # caller-supplied population + a module that draws from the process-global generator (ss.Births): every member must
+        # still be its standalone run, whatever state the hosting process is in (one worker / serial loop: the state the
+        # previous member left; forked workers: the parent's) -- lists (not reseeded) and replicates, in place
+        G(target='list', mode='serial', api='MultiSim', inplace=True, min_members=3, births=True, own_people=True),
+        G(target='list', mode='parallel', n_cpus=rng.choice([1, 2]), api=rng.choice(['parallel', 'multi_run']), inplace=True, min_members=3,
+          births=True, own_people=True),
+        G(target='single', mode=rng.choice(['parallel', 'serial']), n_cpus=rng.choice([1, 2]), api=rng.choice(['MultiSim', 'multi_run']), n_runs=3,
+          births=True, own_people=True),
+        # the same with a population created by the sim
+        G(target='list', mode=rng.choice(['parallel', 'serial']), n_cpus=1, api='multi_run', min_members=3, births=True),
         # replicates, every api
         G(target='single', mode='parallel', n_cpus=2, api='multi_run', n_runs=4),
         G(target='single', mode='parallel', n_cpus=rng.choice([2, 4]), api='MultiSim', n_runs=3),
@@ -597,44 +675,119 @@ def correspond_diff_npts(ctx):
 
 
 def correspond_summarize(ctx, sims):
+    """ MultiSim.summarize(method, how) under a short history of `how` values, and msim.summary after mean() / median(), against
+        the model evaluated on the members' SERIES (exact rationals): Model simSummary / msimSummarize / reducedSummary """
     import starsim as ss
+    if mixed_keys(sims): return None
     with quiet():
         m = ss.MultiSim(sims=list(sims))
-        per = [s.summarize() for s in sims]
-    keys = [k for k in per[0].keys() if all(np.isfinite(p[k]) for p in per)]
+    flats = [impl.flat_results(s) for s in sims]
+    keys = summary_keys(flats)
     keys = ctx.rng.sample(sorted(keys), min(3, len(keys)))
+    # make sure a key of every rule of the table is among them when there is one
+    for pref in ('cum_', 'n_'):
+        cand = [k for k in sorted(summary_keys(flats)) if pref in k]
+        if cand and not any(pref in k for k in keys): keys.append(ctx.rng.choice(cand))
+    rowstr = lambda k: ';'.join(','.join(frac_str(x) for x in f[k]) for f in flats)
     lines = []; impl_res = []
-    for method in ('mean', 'all', 'median'):
-        try:
-            with quiet():
-                s = m.summarize(method=method)
-            err = None
-        except Exception as e:
-            s = None; err = err_name(e)
-        for k in keys:
-            vals = ','.join(frac_str(p[k]) for p in per)
-            lines.append(f'summarize asis {method} 1/2,0,1,1/4,3/4 {vals}')
-            impl_res.append((method, k, s[k] if s is not None else None, err, [float(p[k]) for p in per]))
+    history = ['default', ctx.rng.choice(['last', 'median', 'mean']), 'default']
+    for hi, how in enumerate(history):
+        for method in (('mean', 'all', 'median') if hi == 0 else ('mean', 'all')):
+            try:
+                with quiet():
+                    s = m.summarize(method=method, how=how)
+                err = None
+            except Exception as e:
+                s = None; err = err_name(e)
+            for k in keys:
+                lines.append(f'msummarize asis {method} 1/2,0,1,1/4,3/4 {how} {k} {rowstr(k)}')
+                impl_res.append((f'{method},how={how},call {hi + 1} of {history}', method, k, s[k] if s is not None else None, err,
+                                 [float(max(abs(x) for x in f[k])) for f in flats]))
     outl = ctx.drive(DRIVER, lines) if lines else []
-    for (method, k, val, err, vals), ol in zip(impl_res, outl):
-        scale = max(abs(v) for v in vals)
+    for (tag, method, k, val, err, mags), ol in zip(impl_res, outl):
+        scale = max(mags)
         if ol.startswith('E:'):
             kind = ERR_KIND.get(err, f'E:Other({err})') if err else 'ok'
             if kind != ol:
-                return f'summarize({method}) {k}: impl={kind} model={ol}'
+                return f'summarize({tag}) {k}: impl={kind} model={ol}'
             continue
         if err:
-            return f'summarize({method}) {k}: impl raised {err}, model={ol}'
+            return f'summarize({tag}) {k}: impl raised {err}, model={ol}'
+        if not ol.startswith('ok'):
+            return f'summarize({tag}) {k}: model answered {ol}'
         parts = dict(p.split('=', 1) for p in ol.split()[1:])
         if method == 'mean':
             mu, var, sem2 = F(parts['mean']), F(parts['var']), F(parts['sem2'])
-            if not close(val['mean'], mu, scale): return f'summarize(mean) {k}: mean impl={val["mean"]} model={float(mu)}'
-            if abs(float(val['std']) - math.sqrt(float(var))) > STD_RTOL * max(1, scale): return f'summarize(mean) {k}: std impl={val["std"]} model sqrt({float(var)})'
-            if abs(float(val['sem']) - math.sqrt(float(sem2))) > STD_RTOL * max(1, scale): return f'summarize(mean) {k}: sem impl={val["sem"]} model sqrt({float(sem2)})'
+            if not close(val['mean'], mu, scale): return f'summarize({tag}) {k}: mean impl={val["mean"]} model={float(mu)}'
+            if abs(float(val['std']) - math.sqrt(float(var))) > STD_RTOL * max(1, scale): return f'summarize({tag}) {k}: std impl={val["std"]} model sqrt({float(var)})'
+            if abs(float(val['sem']) - math.sqrt(float(sem2))) > STD_RTOL * max(1, scale): return f'summarize({tag}) {k}: sem impl={val["sem"]} model sqrt({float(sem2)})'
         elif method == 'all':
             mv = [F(x) for x in parts['all'].split(',')]
-            if [F(float(x)) for x in np.asarray(val).tolist()] != mv: return f'summarize(all) {k}: impl={val} model={mv}'
+            got = np.asarray(val).tolist()
+            if len(got) != len(mv) or not all(close(x, v, scale) for x, v in zip(got, mv)): return f'summarize({tag}) {k}: impl={val} model={[float(v) for v in mv]}'
         ctx.count('summarize_checks')
+    # the summary of the reduced MultiSim
+    for um in (True, False):
+        with quiet():
+            m2 = ss.MultiSim(sims=list(sims))
+            m2.mean() if um else m2.median()
+        outl = ctx.drive(DRIVER, [f'rsummary {int(um)} none none {k} {rowstr(k)}' for k in keys])
+        for k, ol in zip(keys, outl):
+            if not ol.startswith('ok '):
+                return f'summary after reduce {k}: model answered {ol}'
+            want = F(ol.split()[1])
+            scale = max(float(max(abs(x) for x in f[k])) for f in flats)
+            for name, summ in (('msim.summary', m2.summary), ('msim.base_sim.summary', m2.base_sim.summary)):
+                got = summ.get(k)
+                if not is_num(got) or not close(got, want, scale):
+                    return f"after {'mean' if um else 'median'}() {name}[{k}] impl={got!r} model={float(want)!r}"
+            ctx.count('reduced_summary_checks')
+    return None
+
+
+def correspond_host(ctx, sc, out, sched):
+    """ The model whose runs READ the hosting process's global generators (singleRunG / execParG / execSerialG), given the
+        observed schedule and arbitrary initial worker states: where it says a member's steps started from the generators
+        freshly seeded with its own seed (`S<eff>`), the real member -- run while the real process-global generators were in
+        the state sc['host'] (inherited by forked workers, handed on from member to member) -- must be the standalone run. """
+    if sc['api'] == 'initrun' or sc['mode'] == 'debug' or out['error'] or not sc.get('do_run', True): return None
+    if sc.get('iterpars') or sc.get('sim_args') or any(m.get('alias') is not None for m in sc['members']): return None
+    ini = lambda m: m['seed'] if sc.get('preinit') else 'none'
+    if sc['target'] == 'single':
+        b = sc['members'][0]; ms = [b] * n_tasks(sc); rs = True if sc.get('reseed') is None else sc['reseed']
+        if pool_shape(sc)[1] > 1 and sc['mode'] == 'parallel': return None
+    else:
+        ms = sc['members']; rs = False if sc.get('reseed') is None else sc['reseed']
+    mstr = ','.join(f"{m['cfg']}:{m['seed']}:{ini(m)}:0" for m in ms) or '-'
+    h = int(sc.get('host') or 0)
+    if sc['mode'] == 'parallel':
+        line = f"grun {mstr} {int(rs)} 1 private {','.join(f'{w}:{i}' for w, i in sched) or '-'} {','.join(str((h + 17 * w) % 1000) for w in range(8))}"
+    else:
+        line = f'gserial {mstr} {int(rs)} 1 {h % 1000}'
+    ol = ctx.drive(DRIVER, [line])[0]
+    if not ol.startswith('ok '):
+        return f'host-state model answered {ol} for `{line}` although the real run succeeded'
+    toks = ol[3:].split(',')
+    if len(toks) != len(out['sims']):
+        return f"host-state model: {len(toks)} members, impl {len(out['sims'])}"
+    for i, (tok, o) in enumerate(zip(toks, out['sims'])):
+        c, sd, eff, g = tok.split(':')
+        if int(sd) != o['seed']:
+            return f"host-state model: member {i} rand_seed model={sd} impl={o['seed']}"
+        if g.startswith('S'):
+            if int(g[1:]) != int(eff):
+                return f'host-state model: member {i} stepped from generators seeded {g[1:]}, distributions seeded {eff}'
+            cfg = sc['cfgs'][int(c)]
+            same, why = impl.arrays_equal(o['flat'], standalone(cfg, int(eff)))
+            if not same:
+                cl = classify(cfg, int(eff))
+                if cl == 'nondet':
+                    ctx.count('skipped_global_reader'); continue
+                return (f"member {i}: the model says its steps start from the global generators freshly seeded with {eff} whatever the worker held (host state {h}), "
+                        f"but it differs from the standalone run: {why}" + (f' ({HOST_MSG})' if cl == 'host' else ''))
+            ctx.count('host_frame_members')
+        else:
+            ctx.count('model_host_dependent_members')
     return None
 
 
@@ -648,6 +801,8 @@ def correspond(ctx):
     sig = inspect.signature(ss.single_run)
     if sig.parameters['ind'].default != 0 or sig.parameters['reseed'].default is not True:
         ctx.broke('extract', 'RunFacts', 'single_run defaults differ from the extracted facts')
+    if facts.get('summarize_how') is not None and [tuple(x) for x in facts['summarize_how']] != DEFAULT_HOW:
+        ctx.broke('extract', 'RunFacts', f"Sim.summarize: the default how table {facts['summarize_how']} differs from the one the oracle's reference uses {DEFAULT_HOW}")
     # pool chunk formula: model vs CPython
     lines = [f'chunk {n} {w}' for n in range(1, 40) for w in (1, 2, 3, 4, 16)]
     outl = ctx.drive(DRIVER, lines)
@@ -703,6 +858,11 @@ def correspond(ctx):
         if div:
             ctx.broke('correspondence', 'C18.run', f'MultiSim/multi_run diverges from Model/MultiRun.lean: {div}',
                       data=dict(kind='scenario', scenario=sc, model=ml, schedule=sched))
+            break
+        div = correspond_host(ctx, sc, out, sched)
+        if div:
+            ctx.broke('correspondence', 'C18.host', f'runs reading the hosting process\'s global generators diverge from Model/MultiRun.lean (execParG/execSerialG): {div}',
+                      data=dict(kind='scenario', scenario=sc, schedule=sched))
             break
         # reduce / summarize on members that share a configuration
         sims = shared_cfg_members(sc, out)
@@ -780,7 +940,8 @@ def oracle_scenario(sc, rng=None, with_reduce=True):
     out = run_impl(sc)
     workers, chunk = pool_shape(sc)
     chunked = bool(sc['target'] == 'single' and sc['mode'] == 'parallel' and chunk > 1)
-    desc = f"{sc['api']}({sc['target']}, n={n_tasks(sc)}, mode={sc['mode']}, n_cpus={sc['n_cpus']}, reseed={sc.get('reseed')}, iterpars={ip_desc(sc.get('iterpars'))}, sim_args={bool(sc.get('sim_args'))}, shrink={sc.get('shrink')}, inplace={sc['inplace']})"
+    desc = (f"{sc['api']}({sc['target']}, n={n_tasks(sc)}, mode={sc['mode']}, n_cpus={sc['n_cpus']}, reseed={sc.get('reseed')}, iterpars={ip_desc(sc.get('iterpars'))}, "
+            f"sim_args={bool(sc.get('sim_args'))}, shrink={sc.get('shrink')}, inplace={sc['inplace']}, own_people={[int(bool(c.get('own_people'))) for c in sc['cfgs']]})")
     if out['error']:
         fails.append(dict(signature=dict(oracle='multirun-raises', mode=sc['mode'], error=out['error'], chunked=chunked, target=sc['target']),
                           what=f"{desc} raised {out['error']}: {out['message']}"))
@@ -803,9 +964,14 @@ def oracle_scenario(sc, rng=None, with_reduce=True):
             fails.append(dict(signature=dict(oracle=kind, what='not-run'), what=f'{desc}: {where} has no results'))
             return
         same, why = impl.arrays_equal(obs['flat'], standalone(cfg, seed))
-        if not same and reproducible(cfg, seed):
-            fails.append(dict(signature=dict(oracle=kind, what='results', preinit=bool(sc.get('preinit')), mode=sc['mode']),
-                              what=f"{desc}: {where} differs from the standalone run with seed {seed}: {why}"))
+        if not same:
+            cl = classify(cfg, seed)
+            if cl == 'ok':
+                fails.append(dict(signature=dict(oracle=kind, what='results', preinit=bool(sc.get('preinit')), mode=sc['mode']),
+                                  what=f"{desc}: {where} differs from the standalone run with seed {seed}: {why}"))
+            elif cl == 'host':
+                fails.append(dict(signature=dict(oracle=kind, what='results-host-state', preinit=bool(sc.get('preinit')), own_people=bool(cfg.get('own_people'))),
+                                  what=f"{desc}: {where} differs from the standalone run with seed {seed}: {why}; {HOST_MSG}"))
 
     for i, (o, (c, s)) in enumerate(zip(out['sims'], exp)):
         check(o, c, s, f'member {i}', 'member-vs-standalone')
@@ -916,38 +1082,128 @@ def oracle_idempotent(sims, desc):
     return fails
 
 
-def oracle_summarize(sims, desc):
-    import starsim as ss
+# Sim.summarize: "the last entry for count and cumulative results, and the mean otherwise" -- the first entry whose key is a
+# substring of the result key decides (pinned to the regenerated table by theorem C18_summarize_how_table)
+DEFAULT_HOW = [('n_', 'mean'), ('new_', 'mean'), ('cum_', 'last'), ('timevec', 'last'), ('', 'mean')]
+
+
+def how_func(key, how='default'):
+    table = DEFAULT_HOW if how == 'default' else [('', how)]
+    return next((f for h, f in table if h in key), 'mean')
+
+
+def summary_ref(series, key, how='default'):
+    """ independent exact reference of the summary number of ONE result series """
+    vals = [F(float(x)) for x in series]
+    f = how_func(key, how)
+    if f == 'mean': return sum(vals) / len(vals)
+    if f == 'last': return vals[-1]
+    if f == 'median': return q_ref(vals, F(1, 2))
+    raise ValueError(f)
+
+
+def summary_keys(flats):
+    ks = []
+    for k in flats[0]:
+        if 'timevec' in k: continue
+        if all(k in f and np.ndim(f[k]) == 1 and len(f[k]) > 0 and np.asarray(f[k]).dtype.kind in 'fiub' and np.all(np.isfinite(np.asarray(f[k], dtype=float))) for f in flats):
+            ks.append(k)
+    return ks
+
+
+def is_num(x):
+    return isinstance(x, (int, float, np.integer, np.floating)) and np.isfinite(float(x))
+
+
+def oracle_reduce_summary(sims, rng, desc, opts=None, perm=None):
+    """ After reduce()/mean()/median() the MultiSim's summary (msim.summary, msim.base_sim.summary) is a reduced statistic too:
+        it must be the summary of the reduced series (re-derived here from the MEMBERS: exact mean/median per time point, then
+        the summary rule), and it must not depend on the order of the members. """
+    import starsim as ss, random
+    rng = rng or random.Random(0)
+    if mixed_keys(sims): return []
+    opts = opts or gen_reduce_opts(rng)
+    use_mean, bounds, quantiles = opts
+    perm = perm or rng.sample(range(len(sims)), len(sims))
+    if perm == sorted(perm): perm = perm[1:] + perm[:1]
+    def red(ss_):
+        with quiet():
+            m = ss.MultiSim(sims=list(ss_))
+            if use_mean: m.mean(bounds=bounds)
+            else: m.median(quantiles=quantiles)
+        return m
+    try:
+        m = red(sims); mp_ = red([sims[j] for j in perm])
+    except Exception as e:
+        return [dict(signature=dict(oracle='reduce-summary', what='raises', error=err_name(e)), what=f'{desc}: reduce{opts} raised {err_name(e)}: {e}')]
+    flats = [impl.flat_results(s) for s in sims]
+    fails = []
+    which = 'mean' if use_mean else 'median'
+    for key in summary_keys(flats):
+        n = len(flats[0][key])
+        rows = [[F(float(f[key][t])) for f in flats] for t in range(n)]
+        centre = [sum(r) / len(r) if use_mean else q_ref(r, F(1, 2)) for r in rows]
+        want = summary_ref(centre, key)
+        scale = max(1, max(abs(x) for r in rows for x in r))
+        for name, summ in (('msim.summary', m.summary), ('msim.base_sim.summary', getattr(m.base_sim, 'summary', None))):
+            got = summ.get(key) if summ is not None else None
+            if not is_num(got) or abs(F(float(got)) - want) > F(RTOL) * scale:
+                fails.append(dict(signature=dict(oracle='reduce-summary', what='value', stat=which),
+                                  what=f'{desc}: after {which}() {name}[{key!r}] = {got!r}, but the {how_func(key)} of the {which} series of the members is {float(want)!r} '
+                                       f'(member 0 alone: {float(summary_ref(flats[0][key], key))!r})'))
+                return fails
+        gp = mp_.summary.get(key)
+        if not is_num(gp) or abs(float(gp) - float(m.summary[key])) > RTOL * float(scale):
+            fails.append(dict(signature=dict(oracle='reduce-summary', what='permutation', stat=which),
+                              what=f'{desc}: after {which}() msim.summary[{key!r}] = {m.summary[key]!r} becomes {gp!r} when the members are given in the order {perm}'))
+            return fails
+    return fails
+
+
+SUMMARIZE_HOWS = ['default', 'last', 'mean', 'median']
+
+
+def oracle_summarize(sims, desc, rng=None, history=None):
+    """ MultiSim.summarize(method, how) is the stated statistic of the members' summary numbers, each re-derived here from the
+        member's result series -- for every `how`, and whatever was asked for before (a history of calls on one MultiSim) """
+    import starsim as ss, random
+    rng = rng or random.Random(0)
     fails = []
     with quiet():
         m = ss.MultiSim(sims=list(sims))
-        per = [s.summarize() for s in sims]
-    for method in ('mean', 'median', 'all'):
+    flats = [impl.flat_results(s) for s in sims]
+    keys = summary_keys(flats)
+    history = history or (['default'] + rng.sample(SUMMARIZE_HOWS[1:], 2) + ['default'])
+    calls = [(how, method) for i, how in enumerate(history) for method in (('mean', 'median', 'all') if i == 0 else (rng.choice(['mean', 'all']),))]
+    for ci, (how, method) in enumerate(calls):
+        hist = f'call {ci + 1} of the history {[h for h, _ in calls]}'
         try:
             with quiet():
-                s = m.summarize(method=method)
+                s = m.summarize(method=method, how=how)
         except Exception as e:
             fails.append(dict(signature=dict(oracle='summarize', method=method, error=err_name(e)),
                               what=f'{desc}: MultiSim.summarize(method={method!r}) raised {err_name(e)}: {str(e)[:120]}'))
             continue
-        for k in per[0].keys():
-            vals = [F(float(p[k])) for p in per]
-            if not all(np.isfinite(float(p[k])) for p in per): continue
+        for k in keys:
+            vals = [summary_ref(f[k], k, how) for f in flats]
             scale = max(1, max(abs(v) for v in vals)); n = len(vals)
             mu = sum(vals) / n; var = sum((x - mu) ** 2 for x in vals) / n
             if method == 'mean':
                 ok = (abs(F(float(s[k]['mean'])) - mu) <= F(RTOL) * scale and abs(float(s[k]['std']) - math.sqrt(float(var))) <= STD_RTOL * scale
                       and abs(float(s[k]['sem']) - math.sqrt(float(var) / n)) <= STD_RTOL * scale)
             elif method == 'all':
-                ok = [F(float(x)) for x in np.asarray(s[k]).tolist()] == vals
+                got = np.asarray(s[k]).tolist()
+                ok = len(got) == n and all(abs(F(float(x)) - v) <= F(RTOL) * scale for x, v in zip(got, vals))
             else:
                 q = s[k]
                 ok = all(abs(F(float(q[name])) - q_ref(vals, F(lvl))) <= F(RTOL) * scale
                          for name, lvl in (('median', .5), ('min', 0), ('max', 1), ('q25', .25), ('q75', .75)))
             if not ok:
                 fails.append(dict(signature=dict(oracle='summarize', method=method, what='value'),
-                                  what=f'{desc}: summarize({method}) of {k} = {s[k]} is not the statistic of {[float(v) for v in vals]}'))
+                                  what=f'{desc}: summarize(method={method!r}, how={how!r}) of {k} = {s[k]} ({hist}) is not the statistic of the members\' '
+                                       f'{how_func(k, how)} values {[float(v) for v in vals]}'))
                 break
+        if any(f['signature'].get('what') == 'value' for f in fails): break
     return fails
 
 
@@ -1007,10 +1263,17 @@ def search(ctx):
                     ctx.fail(f['signature'], f['what'], dict(kind='reduce', scenario=sc, opts=list(bo)))
             for f in oracle_idempotent(sims, f'MultiSim of {len(sims)} members'):
                 ctx.fail(f['signature'], f['what'], dict(kind='idempotent', scenario=sc))
-        if sims is not None and did_sum < ctx.budget(2, 10):
+        if sims is not None and did_sum < ctx.budget(2, 10) and not mixed_keys(sims):
             did_sum += 1
-            for f in oracle_summarize(sims, f"MultiSim of {len(sims)} members"):
-                ctx.fail(f['signature'], f['what'], dict(kind='summarize', scenario=sc))
+            # the summary a reduced MultiSim reports (mean and median), then summarize() under a history of `how` values
+            for um in (True, False):
+                opts = (um, None, None); perm = ctx.rng.sample(range(len(sims)), len(sims))
+                for f in oracle_reduce_summary(sims, ctx.rng, f'MultiSim of {len(sims)} members', opts=opts, perm=perm):
+                    ctx.fail(f['signature'], f['what'], dict(kind='reduce-summary', scenario=sc, opts=list(opts), perm=perm))
+            history = ['default'] + ctx.rng.sample(SUMMARIZE_HOWS[1:], 2) + ['default']
+            for f in oracle_summarize(sims, f"MultiSim of {len(sims)} members", ctx.rng, history=history):
+                ctx.fail(f['signature'], f['what'], dict(kind='summarize', scenario=sc, history=history))
+            ctx.count('summary_oracles')
     for sc in known_probes(ctx.rng):
         fails, _ = oracle_scenario(sc, ctx.rng, with_reduce=False)
         ctx.count('known_probes')
@@ -1029,11 +1292,12 @@ def replay(ctx, data):
         fails = oracle_permutation(sc)
         for f in fails: print('  ', f['what'][:300])
         return bool(fails)
-    if kind in ('summarize', 'reduce', 'idempotent'):
+    if kind in ('summarize', 'reduce', 'idempotent', 'reduce-summary'):
         out = run_impl(sc)
         sims = shared_cfg_members(sc, out)
         if sims is None: return False
-        if kind == 'summarize': fails = oracle_summarize(sims, 'replay')
+        if kind == 'summarize': fails = oracle_summarize(sims, 'replay', ctx.rng, history=data.get('history'))
+        elif kind == 'reduce-summary': fails = oracle_reduce_summary(sims, ctx.rng, 'replay', opts=tuple(data['opts']) if data.get('opts') else None, perm=data.get('perm'))
         elif kind == 'idempotent': fails = oracle_idempotent(sims, 'replay')
         else: fails = oracle_reduce(sims, ctx.rng, 'replay', opts=tuple(data['opts']) if data.get('opts') else None)
         for f in fails: print('  ', f['what'][:300])
